@@ -228,7 +228,7 @@ def row_rules(chk, P, L):
     extra = {k: v for k, v in got.items() if k not in want and v}
     chk.require(not extra, "GTE", "GTE:row-entry:no-other-entry", "", "token kinds %s are accepted as row entries" % [list(k) for k in extra])
     # the loop ends only on Eol | Eof (unconsumed)
-    L.need("ROWWIDTH")
+    L.need("ROWWIDTH", only=("row-Ok-only-with-header-width", "push-advance", "parse_data_row-anchor"))   # the parser half: an accepted row has header width
     L.need("BITS")
     # C/X/Z only
     errs = [bb for (cb, bb, i, st) in P.constructors("errors::ParseErrorKind::ExpectedCXZ") if cb is b]
